@@ -71,6 +71,7 @@ def ctype_std(em, t):
         em.vstd_req.setdefault(nm, ('arr', (e, nn)))
         return 'struct ' + nm
     if n == 'std::bitset': return 'unsigned long'      # bitset<N>, N <= 64: the bits of an unsigned long
+    if n == 'std::integral_constant': return 'unsigned char'      # a tag object: stateless, only its type matters
     if n == 'std::unique_ptr' and t.args: return em.ctype(_noconst(t.args[0])) + ' *'      # the owned pointer; ownership and deletion are not represented
     if n.startswith('std::bitset<') and n.endswith('::reference'): return '_Bool'      # proxy of a bit that is only read: its value
     if n in ('std::basic_string', 'std::__cxx11::basic_string', 'std::basic_string_view'): return 'ovm_string'
@@ -91,6 +92,7 @@ def trivially_copyable_std(em, t):
     if n == 'std::_Bit_reference': return True
     if n == 'std::bitset' or (n.startswith('std::bitset<') and n.endswith('::reference')): return True
     if n == 'std::unique_ptr': return True
+    if n == 'std::integral_constant': return True
     if n == 'std::pair': return em.is_trivially_copyable(t.args[0]) and em.is_trivially_copyable(t.args[1])
     if n == 'std::array': return em.is_trivially_copyable(t.args[0])
     if n in ('std::basic_string', 'std::__cxx11::basic_string', 'std::basic_string_view', 'std::initializer_list'): return True
@@ -126,6 +128,7 @@ def default_init_std(em, t, lv):
         return '%s_init(&(%s));' % (c, lv)
     if n in ('std::basic_string', 'std::__cxx11::basic_string'): return '%s = ovm_string_empty();' % lv
     if n == 'std::bitset': return '%s = 0UL;' % lv
+    if n == 'std::integral_constant': return '%s = 0;' % lv
     if iter_info(em, t) is not None: return ''
     return None
 
@@ -189,6 +192,7 @@ def construct_std(em, t, lv, e, kind):
     n = t.name
     args = e.get('inner', [])
     c = em.ctype(t).replace('struct ', '')
+    if n == 'std::integral_constant': return '%s = 0;' % lv
     if n == 'std::bitset':
         real = [a for a in args if a.get('kind') != 'CXXDefaultArgExpr']
         nb = int(re.sub(r'[uUlL]', '', str(t.args[0])))
